@@ -83,7 +83,7 @@ pub fn pattern(r: &mut Rng) -> String {
         }
         4 => {
             s.push('|');
-            s.push_str(r.pick(&["https://", "http://", "https://", "http://", "ws://", "wss://"]));
+            s.push_str(r.pick(&["https://", "http://", "https://", "http://", "ws://", "wss://", "http*://"]));
             if r.chance(2, 3) {
                 s.push_str(r.pick(HOSTS));
                 s.push('/');
@@ -224,6 +224,17 @@ pub fn rule_list(r: &mut Rng, n: usize, modifiers: bool) -> Vec<String> {
             let k = r.range(2, 3);
             let ds: Vec<&str> = (0..k).map(|_| if r.chance(1, 5) { r.pick(DOMAIN_SUFFIXES) } else { r.pick(DOMAINS) }).collect();
             lines.push(format!("{}${},domain={}", if r.chance(1, 4) { "@@" } else { "" }, r.pick(&["script", "image", "xhr", "third-party", "font"]), ds.join("|")));
+        } else if r.chance(1, 12) {
+            // end-anchored plain rules that differ only in the separator before their last words: same
+            // tokens (same bucket), same options (candidates for fusion), different texts
+            let (w, ext) = (r.pick(VOCAB), r.pick(&["gif", "js", "png"]));
+            let o = r.pick(&["", "$image", "$script,third-party"]);
+            let exc = if r.chance(1, 5) { "@@" } else { "" };
+            let mut seps = vec!["-", "_", "/", "."];
+            for _ in 0..r.range(2, 3) {
+                let sp = seps.remove(r.below(seps.len()));
+                lines.push(format!("{}{}{}.{}|{}", exc, sp, w, ext, o));
+            }
         } else if r.chance(1, 4) {
             lines.extend(siblings(r, modifiers));
         } else {
@@ -313,6 +324,7 @@ pub fn url_for(r: &mut Rng, rule_line: &str) -> String {
         (host, p[end..].to_string())
     } else if let Some(p) = pat.strip_prefix('|') {
         let u = p.trim_end_matches('|').replace('^', "/").replace('*', "zz");
+        let u = if u.starts_with("httpzz://") { u.replacen("httpzz", r.pick(&["http", "https"]), 1) } else { u };
         if u.ends_with("://") {
             // scheme-only pattern (`|ws://`): any URL of that scheme
             return format!("{}{}/{}", u, r.pick(HOSTS), segs(r, 0, 2).replace('^', "/").replace('*', "-"));
